@@ -7,6 +7,7 @@ import (
 	"encoding/hex"
 	"fmt"
 	"math/rand"
+	"os"
 	"runtime"
 	"strings"
 	"sync"
@@ -40,6 +41,9 @@ type endpoint struct {
 	drive func(b []byte, step stepFn) error
 	// raw: include the raw framing-level inputs (class (a))
 	noRaw bool
+	// late inputs run after the mutations (inputs known to hang the unchanged tree: a hung
+	// call keeps spinning until the process ends)
+	late []in
 }
 
 // stepFn runs one follow-up call under its own recover.
@@ -78,7 +82,10 @@ func runEndpoint(t *testing.T, run *obs.Run, ep endpoint, nMut int) {
 		cl, b := pbench.Mutate(gen, ep.valid[gen.Intn(len(ep.valid))])
 		cases = append(cases, in{cl, b})
 	}
+	cases = append(cases, ep.late...)
 	hangs := 0
+	t0 := time.Now()
+	defer func() { run.Stat("wall_ms/"+ep.name, int64(time.Since(t0)/time.Millisecond)) }()
 	for i, ic := range cases {
 		if hangs >= 2 {
 			// every hung call keeps a core spinning until the process ends
@@ -112,10 +119,17 @@ func runEndpoint(t *testing.T, run *obs.Run, ep endpoint, nMut int) {
 			err, pi = e, p
 		}()
 		hung := false
+		tc := time.Now()
 		select {
 		case <-done:
 		case <-time.After(hangBound):
 			hung = true
+		}
+		if d := time.Since(tc); d > 1500*time.Millisecond {
+			run.Stat("slow_cases_over_1500ms", 1)
+			if os.Getenv("C37_DEBUG") != "" {
+				fmt.Fprintf(os.Stderr, "SLOW %s/%d %s %s\n", ep.name, i, ic.class, d)
+			}
 		}
 		pbench.Settle()
 		outcome := "ok"
@@ -167,7 +181,7 @@ func runEndpoint(t *testing.T, run *obs.Run, ep endpoint, nMut int) {
 
 // hangBound is the liveness bound of one case (not an oracle of timing: every finite
 // case of this bench takes milliseconds to a few seconds).
-const hangBound = 25 * time.Second
+const hangBound = 20 * time.Second
 
 // repoStacks lists the running goroutines that are inside repository code (for the
 // witness of a hang).
